@@ -13,6 +13,7 @@ import CallbagModel.Inv.PlugSafe
 import CallbagModel.Inv.Readable
 import CallbagModel.Inv.Relay
 import CallbagModel.Inv.Share
+import CallbagModel.Inv.ShareCS
 import CallbagModel.Inv.ShareWeak
 import CallbagModel.Inv.Take
 /-!
@@ -90,6 +91,19 @@ to sinks that are already done (C02/C03, known findings KF5a/KF5b), hence C01 ho
 theorem C01_share {α : Type} :
     ∀ s, SReach (Share.machine α) s → SafeFor 1 s :=
   fun s hs => safeFor_of_onlyLateDelivery _ s hs (ShareWeak.share_safe_weak s hs).1 (ShareWeak.share_safe_weak s hs).2 1 (by decide)
+
+/-- `share` under the WIDER cross-sink environment (`SemCS.lean`: while share is delivering to one sink any live sink may pull or dispose —
+`merge!(s, s)` over a shared `s`): its only deviations are late deliveries (C02/C03: KF5a–KF5c) and a Pull forwarded to an upstream
+that has just ended (C04: KF5d); hence C01 holds on those histories too (`Inv/ShareCS.lean`). -/
+theorem C01_share_cross_sink {α : Type} :
+    ∀ s, CSReach (Share.machine α) s → SafeFor 1 s := by
+  intro s hs
+  obtain ⟨hv, hx, hp⟩ := ShareCS.share_safe_cs s hs
+  refine ⟨?_, fun _ => hp⟩
+  intro v hm
+  unfold G.viols at hm
+  rw [hx, List.nil_append] at hm
+  rcases hv v hm with ⟨k, rfl⟩ | ⟨k, rfl⟩ | ⟨i, rfl⟩ <;> simp [Viol.prop]
 /-- `combine!`: the full phase-level safety statement is false (known findings KF2, KF3: messages to members that are not
 live, a C04 matter); what is proved is that those are the ONLY phase-level violations, hence C01 holds in full. -/
 theorem C01_combine {α : Type} (n : Nat) :
